@@ -34,6 +34,28 @@ def pykey(key: List[dict]):
     return tuple(out)
 
 
+def present_key(key: tuple, shape) -> tuple:
+    """a slice bound inside the current extent can equally be counted from the end (lo - n, hi - n): a presentation of
+    the same key, rotated with the array layout"""
+    import bind
+    if bind.get_layout() not in ("swapped", "grown"):
+        return key
+    out = []
+    for m, k in enumerate(key):
+        if isinstance(k, slice) and m < len(shape):
+            n = int(shape[m])
+            lo, hi = k.start, k.stop
+            if hi is None or hi <= n:
+                if lo is not None and 0 <= lo < n:
+                    lo = lo - n
+                if hi is not None and 0 < hi < n:
+                    hi = hi - n
+            out.append(slice(lo, hi, k.step))
+        else:
+            out.append(k)
+    return tuple(out)
+
+
 def holders(A: dict):
     """dense and sparse holder of the abstract array A (sparse: stored in reversed order)"""
     import bind
@@ -81,7 +103,7 @@ def do_write(X, sparse: bool, ev: dict, k: int):
     ttb = bind.ttb
     op, a = ev["op"], ev["args"]
     if op == "set_region":
-        key = pykey(a["key"])
+        key = present_key(pykey(a["key"]), X.shape)
         r = a["rhs"]
         if r["kind"] == "scalar":
             val = float(r["val"]) if r["val"] != 0 or k % 2 else 0
@@ -136,7 +158,7 @@ def do_read(X, sparse: bool, ev: dict):
             return X[slice(a["idx"][0], a["idx"][-1] + 1)]
         return X[int(a["idx"][0])]
     if op == "get_region":
-        return X[pykey(a["key"])]
+        return X[present_key(pykey(a["key"]), X.shape)]
     raise ValueError(op)
 
 
